@@ -6,6 +6,11 @@ COMMON_NOTE = ("Trusted: Lean 4.33 kernel; axioms limited to propext/Quot.sound/
                "lean/MoreExec/Props. Correspondence covers the explored schedules only; the universal claim is about the model.")
 
 PROPS = {
+    "C17": dict(
+        technique="Lean 4: forwarding table K8 regenerated from proxy.py/nocancel.py and decided transparent (decide over the whole table); operator protocol modelled as a parameter with theorems for every operand semantics (operator form transparent, direct dunder call not); differential of every forwarded operation x operand types on the real f_proxy; non-blocking / timeout / f_nocancel under a deterministic scheduler",
+        level_text="Machine-checked: for every semantics of the operand types, a proxy method written as the operator/builtin applied to the result is transparent including the reflected fall-back, while a direct dunder call is not (witness theorems); the table of how each ProxyFuture method reaches the result is regenerated from the source on every run and a decide-proof shows every Python-3 forwarded method is of the transparent kind, that bool/unknown-dunder lookups never touch the result and repr/str/eq/hash are not forwarded, and that NoCancelFuture.cancel is the constant False. The differential runs each forwarded operation over ~12k operand combinations across the builtin types on the real proxy and the plain value.",
+        design_ref="DESIGN.md section 6 C17",
+        level_note="Modelled, not verified: Python's numeric and container semantics (parameter of the theorems; sampled by the differential); MapFuture mirroring of the outcome is C13/C02."),
     "C16": dict(
         technique="Lean 4 proofs by structural induction over the argument list (any arity) on a model of f_apply's nested flat-maps and fn_runner closures: argument order / keyword binding, called iff all inputs succeeded, failure comes from an input; differential of the real f_apply against the model under a deterministic scheduler",
         level_text="Machine-checked theorems for every arity: the function finally receives the positional arguments in their original order and each keyword under its own name and nothing else; it is called exactly when the function future and all argument futures succeeded; a failed output carries the exception of one of the failed inputs. The hand-written model mirrors apply.py's recursion; it is tied to the code by running the real f_apply (arities 0-5 x 0-3 keywords, failing/cancelled inputs at every position, all completion orders over 1-3 threads) and comparing calls and outcomes (by identity) with the model's executable definition, next to direct property monitors.",
